@@ -12,11 +12,24 @@ def check(run):
     traces = run.drive('TestDriveC17', shards, lambda i: dict(VERIF_SEED=run.seed * 1000 + i, VERIF_N=run.pick(150, 4000)), 'c17', timeout=3000)
     run.sample_from(traces[0], 2)
     run.validate('Rec_C17', recfam.rec_cfg('Rec_C17', INV), traces, 'rec', parallel=8)
-    n = recfam.count_lines(traces)
+    # growth (drift only): `fan2go detect` (a real process on the same trees) lists under every index the device
+    # that the index binds to
+    import os
+    det = 0
+    for t in traces[:run.pick(4, 16)]:
+        rc, out = run.tlc('Rec_C17', recfam.rec_cfg('Rec_C17', ['G17_DetectShowsBinding']), 'det_' + os.path.basename(t), workers=1, env=dict(VERIF_TRACE=t))
+        if vlib.parse_violation(out) or 'TRACE-DONE' not in out:
+            run.cov['drift'].append(dict(trace=os.path.basename(t), note='`fan2go detect` lists devices differently from HwmonBind', line=vlib.last_l(out)))
+            vlib.log('[DRIFT] `fan2go detect` lists devices differently from HwmonBind (%s)' % os.path.basename(t))
+    n = 0
     bound = errs = 0
     for t in traces:
         with open(t) as f:
             for ln in f:
+                if '"ev":"Detect"' in ln:
+                    det += 1
+                    continue
+                n += 1
                 if '"err":true' in ln:
                     errs += 1
                 else:
@@ -31,6 +44,6 @@ def check(run):
                       '(hwmon.GetChips, internal.InitializeObjects); every file of the tree holds a value identifying its device, so '
                       'the device really read (RPM, PWM, temperature) and written (PWM, enable) on first use is observed; TLC checks '
                       'each case against BindFan / BindSensor; non-trivial = cases',
-                      dict(evaluations=n, distinct_nontrivial=n, cases=n, bound=bound, refused=errs),
+                      dict(evaluations=n, distinct_nontrivial=n, cases=n, bound=bound, refused=errs, detect_listings=det),
                       ['the gosensors stand-in presents features like libsensors (fanN / tempN with _input sub-features, ascending numbers)',
                        'platform patterns match exactly one chip (or none)'])
